@@ -61,6 +61,11 @@ def gen_workload(r, lag, nm=None):
   metrics = ['s%d' % i for i in range(nm)]
   if r.random() < 0.15:
     metrics[r.randrange(nm)] = ''      # the pickle listener accepts a series whose name is the empty string
+  if r.random() < 0.3:
+    # series whose tag part does not parse are accepted under the name they came with (the write processor only logs that);
+    # tagged series, carbon's own prefix, empty path elements
+    metrics[r.randrange(nm)] = r.choice(['web.hits;host', 'a;b=', 'a;=1', 'x;', ';k=v', 'app.req.count;dc=east;az=b', 'cpu{core="0"', 'm;a=1;a=2',
+                                         'carbon.agents.h.x', '.lead.dot', 'a..b'])
   ops = []
   n = r.randint(2, 8)
   for i in range(n):
